@@ -3,6 +3,11 @@
   Property statements only; helper lemmas live in Proofs/Lemmas.
 -/
 import Nlmodel.Model.Pipeline
+import Nlmodel.Proofs.Lemmas.SimProgram
+import Nlmodel.Proofs.Lemmas.ResolveTop
+import Nlmodel.Proofs.Lemmas.ResolveCtl
+import Nlmodel.Proofs.Lemmas.SpecMono
+import Nlmodel.Proofs.Lemmas.SimFnProgram
 namespace Nl
 namespace C01
 
@@ -25,6 +30,216 @@ theorem C01_budget_mono (c : Code) (n k : Nat) (s : VM)
     | halt v s' => rfl
     | error e s' => rfl
     | fault site => rfl
+
+/-- The definitional semantics is well defined: once the evaluator finishes a block with some fuel
+    (any result other than "out of fuel"), every larger fuel gives the same result.  Proved for the
+    WHOLE language (all six mutually recursive evaluation functions, `Spec.mono`), so "the program
+    denotes o" := "some fuel gives o" is a function of the program. -/
+theorem C01_spec_fuel_mono (f k : Nat) (b : RBlock) (st : Spec.SState) (h : Spec.evalB f b st ≠ .fuel) :
+    Spec.evalB (f + k) b st = Spec.evalB f b st :=
+  Spec.evalB_fuel_mono f k b st h
+
+/-- FORWARD SIMULATION, stage 1 (closed scalar expressions: integer and boolean literals, `!`, unary
+    `-`, and all 13 binary operators, nested arbitrarily).  Wherever the bytes the compiler model
+    emits for `e` sit in the code, with whatever the pool contains besides `e`'s constants, from ANY
+    machine state at that position: if the definitional evaluator gives the value `v`, the machine
+    reaches the end of that code with exactly `v` pushed and nothing else changed; if it gives an
+    error, the machine reaches a step that fails with the same error kind. -/
+theorem C01_scalar_expr_simulation (f : Nat) (e : RExpr) (st : Spec.SState) (h : Sim.Sc e) (pos : Nat) (lp : LoopCtx)
+    (cs : List Const) (C : Code) (s : VM) (hcode : Sim.CodeAt C pos (emitE e pos lp cs).1)
+    (hpool : Sim.PoolOK s.cvals (emitE e pos lp cs).2) (hip : s.ip = pos) :
+    Sim.Goal C s pos (sizeE e) st (Spec.evalE f e st) :=
+  Sim.sim_sc f e st h pos lp cs C s hcode hpool hip
+
+/-- END TO END, stage 1: for a program consisting of one closed scalar expression, compiled by the
+    compiler model and run on a fresh machine: the definitional value is the value the run halts
+    with, and a definitional error is the error the run fails with, for every sufficiently large
+    instruction budget (bytes, constant pool, `VM.start`, `Pop`, `Halt` included). -/
+theorem C01_scalar_program (e : RExpr) (hsc : Sim.Sc e) (bc : Bytecode) (hc : compileR (.cons (.expr e) .nil) = .ok bc)
+    (f : Nat) :
+    match Spec.evalE f e {} with
+    | .val v _ => ∃ mv n, Sim.toVal v = some mv ∧ ∀ k, ∃ s', runSteps bc.code (n + k) (VM.start {} bc) = .value mv s'
+    | .err er _ => ∃ n, ∀ k, ∃ s', runSteps bc.code (n + k) (VM.start {} bc) = .error er s'
+    | _ => True :=
+  Sim.scalar_program e hsc bc hc f
+
+/-- FORWARD SIMULATION, stage 2 (expressions over GLOBAL scalar variables, with assignment): in a scope
+    `Γ` (binders with pairwise different slots), from any machine state whose globals hold the value
+    of every bound binder of `Γ` in its slot: a definitional value `v` with new state `st'` is matched
+    by the machine reaching the end of the code with `v` pushed and globals that again hold every
+    bound binder of `Γ` (w.r.t. `st'`); errors are matched by errors of the same kind. -/
+theorem C01_global_expr_simulation (Γ : Sim.Gam) (hok : Sim.GamOK Γ) (f : Nat) (e : RExpr) (st : Spec.SState)
+    (h : Sim.WE Γ e) (pos : Nat) (lp : LoopCtx) (cs : List Const) (C : Code) (s : VM)
+    (hcode : Sim.CodeAt C pos (emitE e pos lp cs).1) (hpool : Sim.PoolOK s.cvals (emitE e pos lp cs).2)
+    (hip : s.ip = pos) (hrel : Sim.Rel Γ st s.globals) :
+    Sim.GoalE Γ C s pos (sizeE e) st (Spec.evalE f e st) :=
+  Sim.sim_we Γ hok f e st h pos lp cs C s hcode hpool hip hrel
+
+/-- END TO END, stage 2: a program that is a sequence of expression statements and `stel`
+    declarations over global scalar variables (well-scoped: `WB [] p Γ'`), compiled by the compiler
+    model and run on a fresh machine, halts with the value of the definitional semantics' `last`
+    register (fails with the same error kind), for every sufficiently large budget.  Declarations
+    may shadow earlier ones; each gets its own slot. -/
+theorem C01_global_program (p : RBlock) (Γ' : Sim.Gam) (hwb : Sim.WB [] p Γ') (bc : Bytecode)
+    (hc : compileR p = .ok bc) (F : Nat) :
+    match Spec.evalB F p {} with
+    | .val () st' => ∃ mv n, Sim.toVal st'.last = some mv ∧ st'.out = [] ∧
+        ∀ k, ∃ s', runSteps bc.code (n + k) (VM.start {} bc) = .value mv s'
+    | .err er _ => ∃ n, ∀ k, ∃ s', runSteps bc.code (n + k) (VM.start {} bc) = .error er s'
+    | _ => True :=
+  Sim.global_program p Γ' hwb bc hc F
+
+/-- END TO END from SOURCE TREES, stage 2: for every parsed program in the stage-2 source fragment
+    (`Sim.AB`: expression statements and `stel` declarations over integers, booleans, identifiers,
+    unary/binary operators and assignments to identifiers), whatever the real resolver + compiler
+    model produce (`compileProgram`), running it agrees with the definitional semantics of the
+    resolved tree.  The well-scopedness premise of `C01_global_program` is discharged by
+    `Sim.resolve_wb` (property R1 of the resolver for this fragment). -/
+theorem C01_source_program (ast : Block) (hab : Sim.AB ast) (r : RBlock) (bc : Bytecode)
+    (hc : compileProgram ast = .ok (r, bc)) (F : Nat) :
+    match Spec.evalB F r {} with
+    | .val () st' => ∃ mv n, Sim.toVal st'.last = some mv ∧ st'.out = [] ∧
+        ∀ k, ∃ s', runSteps bc.code (n + k) (VM.start {} bc) = .value mv s'
+    | .err er _ => ∃ n, ∀ k, ∃ s', runSteps bc.code (n + k) (VM.start {} bc) = .error er s'
+    | _ => True := by
+  unfold compileProgram at hc
+  cases hr : resolveProgram ast with
+  | error e => simp [hr] at hc
+  | ok r' =>
+    simp only [hr] at hc
+    cases hcr : compileR r' with
+    | error e => simp [hcr] at hc
+    | ok bc' =>
+      simp only [hcr] at hc
+      injection hc with hc; injection hc with h1 h2; subst h1; subst h2
+      obtain ⟨Γ', hwb⟩ := Sim.resolve_wb ast hab r' hr
+      exact Sim.global_program r' Γ' hwb bc' hcr F
+
+/-- FORWARD SIMULATION, stage 3 (structured control flow over global scalar variables): `als`/`anders`
+    in value position, `zolang` with its value, `stop`, `volgende`, nested blocks with their scopes
+    and slot reuse, declarations inside loop bodies.  For every fuel `f` the five statements hold
+    together: expressions (`PE`), blocks in value position (`PBV`), statements (`PS`), blocks in
+    statement position (`PB`) and the loop from its head (`PL`).  Each says: from ANY machine
+    configuration at the start of the emitted code whose globals hold the bound binders of the scope
+    and whose `last` register holds the semantics' `last`: a definitional value is matched by the
+    machine reaching the end of the code with that value pushed on the SAME stack (no residue,
+    C11); `stop`/`volgende` are matched by the machine reaching the loop's exit / head with `null`
+    pushed on the stack the construct started with; an error by a failing step of the same kind.
+    The flag `ab` of the fragment forbids `stop`/`volgende` where an operand is pending
+    (known finding K3: there the machine's value is WRONG, see `Sim.XE`). -/
+theorem C01_control_flow_simulation (f : Nat) : Sim.PAll f := Sim.pall f
+
+/-- END TO END from SOURCE TREES, stage 3: every parsed program of the stage-3 source fragment
+    (`Sim.SB false`), resolved and compiled by the models of the real resolver and code generator,
+    run on a fresh machine: a definitional result (value of the `last` register / error kind) is
+    the result of the run for every sufficiently large budget; and the definitional semantics never
+    ends such a program in a dangling `stop`/`volgende`/`antwoord`. -/
+theorem C01_control_flow_program (ast : Block) (hs : Sim.SB false ast) (r : RBlock) (bc : Bytecode)
+    (hc : compileProgram ast = .ok (r, bc)) (F : Nat) :
+    match Spec.evalB F r {} with
+    | .val () st' => ∃ mv n, Sim.toVal st'.last = some mv ∧ st'.out = [] ∧
+        ∀ k, ∃ s', runSteps bc.code (n + k) (VM.start {} bc) = .value mv s'
+    | .err er _ => ∃ n, ∀ k, ∃ s', runSteps bc.code (n + k) (VM.start {} bc) = .error er s'
+    | .brk _ => False
+    | .cont _ => False
+    | .ret _ _ => False
+    | _ => True := by
+  unfold compileProgram at hc
+  cases hr : resolveProgram ast with
+  | error e => simp [hr] at hc
+  | ok r' =>
+    simp only [hr] at hc
+    cases hcr : compileR r' with
+    | error e => simp [hcr] at hc
+    | ok bc' =>
+      simp only [hcr] at hc
+      injection hc with hc; injection hc with h1 h2; subst h1; subst h2
+      obtain ⟨Γ', hxb⟩ := Sim.resolve_xb ast hs r' hr
+      exact Sim.ctl_program r' Γ' hxb bc' hcr F
+
+/-- FORWARD SIMULATION, stage 4 (functions): named and anonymous functions as first-class values,
+    calls with too few / too many arguments, parameters and locals in frame slots (block scopes and
+    slot reuse inside bodies), recursion, `antwoord` from any depth (also under pending operands and
+    out of loops), fused local-constant instructions and their mirrored forms, control flow and
+    global variables as in stage 3 — on the flat stack with vm.rs's base-pointer arithmetic.  For
+    every fuel the seven statements hold together (`SimF.PAll`: expressions, argument lists, blocks
+    in value position, statements, blocks, loops, FUNCTION BODIES).  The frame of the caller (`below`)
+    is never touched (C12); every completion of a body is a return to the saved frame; the machine
+    may instead stop at its stack/frame limit (`Ovf`), which the semantics does not have. -/
+theorem C01_function_simulation (W : SimF.World) (hW : SimF.WOK W) (f : Nat) : SimF.PAll W f := SimF.pall hW f
+
+/-- END TO END from resolved trees, stage 4: a top-level program that is a sequence of statements
+    and function definitions (`SimF.YTop`) with pairwise distinct function ids, compiled by the
+    compiler model and run on a fresh machine, ends with the value of the definitional semantics'
+    `last` register (related by `SimF.VR`: same scalar, or the function value of the same
+    definition), or with the same error kind — or at the machine's stack/frame limit. -/
+theorem C01_function_program (p : RBlock) (Γ' : Sim.Gam) (D : List (Nat × SimF.FnInfo)) (hy : SimF.YTop [] p 0 [] Γ' D)
+    (hnd : D.Pairwise (fun x y => x.1 ≠ y.1)) (bc : Bytecode) (hc : compileR p = .ok bc) (F : Nat) :
+    (∃ n, ∀ k, ∃ s', runSteps bc.code (n + k) (VM.start {} bc) = .error .index s') ∨
+    match Spec.evalB F p {} with
+    | .val () st' => ∃ mv n, SimF.VR (SimF.lookupD D) Γ' st'.last mv ∧ st'.out = [] ∧
+        ∀ k, ∃ s', runSteps bc.code (n + k) (VM.start {} bc) = .value mv s'
+    | .err er _ => ∃ n, ∀ k, ∃ s', runSteps bc.code (n + k) (VM.start {} bc) = .error er s'
+    | .brk _ => False
+    | .cont _ => False
+    | .ret _ _ => False
+    | _ => True :=
+  SimF.fn_program p Γ' D hy hnd bc hc F
+
+def exBody : RBlock := .cons (.expr (.var ⟨1, .loc 0⟩)) .nil
+def exProg : RBlock :=
+  .cons (.expr (.func 0 (some ⟨0, .global 0⟩) [1] 1 exBody))
+    (.cons (.expr (.call (.var ⟨0, .global 0⟩) (.cons (.int 1) .nil))) .nil)
+
+/-- non-vacuity: the resolved tree of `functie f(n) { n } f(1)` is a stage-4 program -/
+example : ∃ Γ' D, SimF.YTop [] exProg 0 [] Γ' D ∧ D.Pairwise (fun x y => x.1 ≠ y.1) := by
+  refine ⟨[(0, 0)], [(0, ⟨3, [1], 1, exBody, [], [(0, 0)]⟩)], ?_, ?_⟩
+  · apply SimF.YTop.fdef [] _ _ _ 0 [] _ 0 0 0 [1] 1 exBody _ _ (SimF.FDef.named 0 0 0 [1] 1 exBody) (by intro p hp; cases hp)
+    · exact SimF.YB.cons _ _ _ _ _ _ _ _ _ (SimF.YS.expr _ _ _ _ (SimF.YE.varL _ _ _ 1 0 (by simp [SimF.paramScope, SimF.paramScopeFrom]) (by omega))) (SimF.YB.nil _ _ _)
+    · simp [Sim.GamOK, SimF.paramScope, SimF.paramScopeFrom]
+    · intro p hp; simp [SimF.paramScope, SimF.paramScopeFrom] at hp; subst hp; simp
+    · apply SimF.YTop.stmt _ _ _ _ _ _ _ _
+        (SimF.YS.expr _ _ _ _ (SimF.YE.call _ _ _ _ _ (SimF.YEs.cons _ _ _ _ (SimF.YE.int _ _ _ 1) (SimF.YEs.nil _ _)) (SimF.YE.varG _ _ _ 0 0 (by simp))))
+      exact SimF.YTop.nil _ _ _
+  · simp
+
+/-- non-vacuity: the source tree of
+    `stel i = 0; stel s = 0; zolang i < 10 { i = i + 1; als i == 5 { volgende }; als i > 8 { stop }; stel d = i * 2; s = s + d }; s`
+    is in the stage-3 fragment -/
+example : Sim.SB false
+    (.cons (.letS ['i'] (.int 0)) (.cons (.letS ['s'] (.int 0))
+      (.cons (.expr (.whileE (.infix (.ident ['i']) .lt (.int 10))
+        (.cons (.expr (.assign (.ident ['i']) (.infix (.ident ['i']) .add (.int 1))))
+        (.cons (.expr (.ifE (.infix (.ident ['i']) .eq (.int 5)) (.cons .cont .nil) .none))
+        (.cons (.expr (.ifE (.infix (.ident ['i']) .gt (.int 8)) (.cons .brk .nil) .none))
+        (.cons (.letS ['d'] (.infix (.ident ['i']) .mul (.int 2)))
+        (.cons (.expr (.assign (.ident ['s']) (.infix (.ident ['s']) .add (.ident ['d'])))) .nil)))))))
+      (.cons (.expr (.ident ['s'])) .nil)))) :=
+  .cons _ _ _ (.letS _ _ _ (.int _ _)) (.cons _ _ _ (.letS _ _ _ (.int _ _))
+    (.cons _ _ _ (.expr _ _ (.whileE _ _ _ (.bin _ _ _ _ .lt rfl (.ident _ _) (.int _ _))
+      (.cons _ _ _ (.expr _ _ (.assign _ _ _ (.bin _ _ _ _ .add rfl (.ident _ _) (.int _ _))))
+      (.cons _ _ _ (.expr _ _ (.ifE _ _ _ _ (.bin _ _ _ _ .eq rfl (.ident _ _) (.int _ _)) (.cons _ _ _ .cont (.nil _)) (.none _)))
+      (.cons _ _ _ (.expr _ _ (.ifE _ _ _ _ (.bin _ _ _ _ .gt rfl (.ident _ _) (.int _ _)) (.cons _ _ _ .brk (.nil _)) (.none _)))
+      (.cons _ _ _ (.letS _ _ _ (.bin _ _ _ _ .mul rfl (.ident _ _) (.int _ _)))
+      (.cons _ _ _ (.expr _ _ (.assign _ _ _ (.bin _ _ _ _ .add rfl (.ident _ _) (.ident _ _)))) (.nil _))))))))
+    (.cons _ _ _ (.expr _ _ (.ident _ _)) (.nil _))))
+
+/-- non-vacuity: the source tree of `stel x = 1; x = x + 2; x` is in the fragment -/
+example : Sim.AB (.cons (.letS ['x'] (.int 1)) (.cons (.expr (.assign (.ident ['x'])
+    (.infix (.ident ['x']) .add (.int 2)))) (.cons (.expr (.ident ['x'])) .nil))) :=
+  .cons _ _ (.letS _ _ (.int 1)) (.cons _ _ (.expr _ (.assign _ _ (.bin _ _ _ .add rfl (.ident _) (.int 2))))
+    (.cons _ _ (.expr _ (.ident _)) .nil))
+
+/-- non-vacuity: `stel x = 1; x = x + 2; x` (binder 0 in slot 0) is well-scoped -/
+example : Sim.WB [] (.cons (.letS ⟨0, .global 0⟩ (.int 1)) (.cons (.expr (.assignVar ⟨0, .global 0⟩
+    (.infix (.var ⟨0, .global 0⟩) .add (.int 2)))) (.cons (.expr (.var ⟨0, .global 0⟩)) .nil))) [(0, 0)] :=
+  .cons _ _ _ _ _ (.letS _ 0 0 _ (by simp) (.int 1))
+    (.cons _ _ _ _ _ (.expr _ _ (.assign 0 0 _ (by simp) (.bin _ _ _ (.var 0 0 (by simp)) (.int 2))))
+      (.cons _ _ _ _ _ (.expr _ _ (.var 0 0 (by simp))) (.nil _)))
+
+/-- non-vacuity: `(1 + 2) * 3 < 10 && !nee` is in the fragment -/
+example : Sim.Sc (.infix (.infix (.infix (.infix (.int 1) .add (.int 2)) .mul (.int 3)) .lt (.int 10)) .and (.not (.bool false))) :=
+  .bin _ _ _ (.bin _ _ _ (.bin _ _ _ (.bin _ _ _ (.int 1) (.int 2)) (.int 3)) (.int 10)) (.not _ (.bool false))
 
 end C01
 end Nl
